@@ -78,7 +78,7 @@ theorem exprBinary_evalZ (σ : State) (bop : BinOp) (self : Expr) (value v : PyV
     rfl
 
 /-- `Sum ± int` builds a new `Sum` whose value is that of the old one plus the integer -/
-theorem sumShift_evalZ (σ : State) (c : Int) (self : Expr) (v : PyVal) (h : sumShift c self = some v) :
+theorem sumShift_evalZ (σ : State) (c : Int) (neg : Bool) (self : Expr) (v : PyVal) (h : sumShift c neg self = some v) :
     v.evalZ σ = evalZ σ self + c := by
   unfold sumShift at h
   split at h
@@ -99,7 +99,7 @@ theorem exprAdd_evalZ (σ : State) (self : Expr) (value v : PyVal) (h : exprAdd 
     · split at h
       · rename_i s hs
         cases h
-        exact sumShift_evalZ σ c self _ hs
+        exact sumShift_evalZ σ c _ self _ hs
       · exact exprBinary_evalZ σ .add self _ v h
   | ex e => exact exprBinary_evalZ σ .add self _ v h
 
@@ -117,7 +117,7 @@ theorem exprSub_evalZ (σ : State) (self : Expr) (value v : PyVal) (h : exprSub 
     · split at h
       · rename_i s hs
         cases h
-        rw [sumShift_evalZ σ (-c) self _ hs]
+        rw [sumShift_evalZ σ (-c) _ self _ hs]
         show evalZ σ self + -c = evalZ σ self - c
         omega
       · exact exprBinary_evalZ σ .sub self _ v h
